@@ -99,6 +99,8 @@ class Repo:
                 self._top(m, n)
         self._mro = {}
         self.inlined = {}
+        self.absorbed = []
+        self.new_functions = []
         self._inline_new_helpers()
 
     def _inline_new_helpers(self):
@@ -116,6 +118,19 @@ class Repo:
         from .inliner import inline_new_helpers
         self.new_functions = sorted(new)
         self.inlined = inline_new_helpers(self, new, resolve_helper, bind_args)
+        # a new helper is *absorbed* when it was spliced somewhere and no call to it remains anywhere in the analysed program:
+        # its statements are then judged where they run (in the callers), not a second time out of context
+        spliced = {h for hs in self.inlined.values() for h in hs}
+        remaining = set()
+        for f in self.funcs.values():
+            for n in ast.walk(f.node):
+                if isinstance(n, ast.Call):
+                    h, _ = resolve_helper(self, f, n)
+                    if h is not None and h.qname in new and h.node is not f.node:
+                        remaining.add(h.qname)
+        for m, tree in self.trees.items() if hasattr(self, "trees") else []:
+            pass
+        self.absorbed = sorted(spliced - remaining)
 
     def _top(self, m, n):
         if isinstance(n, ast.ImportFrom) and n.module:
